@@ -173,6 +173,19 @@ def run_keyset(chk, cc, name, keys, tier, rng):
                     ok = False
     chk.obligation("%s: Voigt/Reuss/Hill K and G == tensor contractions; rho v_s^2 = G_VRH, rho v_p^2 = K_VRH + 4/3 G_VRH (km/s)" % name,
                    "unsat" if ok else "sat", seconds=round(time.time() - t0, 2), kind="identity")
+    # (3b) ordering for the general tensor of this key set (lemma chain), at one grid point (the code is uniform over the grid)
+    if (1, 1) in Smat and ok:
+        def Cij(i, j):
+            k = "c%d%d" % tuple(sorted((i + 1, j + 1)))
+            return Sym.of(C[k][1, 1]) if k in C else Sym({})
+        Cm = [[Cij(i, j) for j in range(6)] for i in range(6)]
+        Sm = [[Sym.of(Smat[(1, 1)][i, j]) for j in range(6)] for i in range(6)]
+        gotv = {q_: numpy.asarray(res[q_], dtype=object)[1, 1] for q_ in ("KV", "KR", "GV", "GR")}
+        good_ord, det = ordering_general(chk, name, Cm, Sm, gotv)
+        if not good_ord and any("unknown" not in d_ for d_ in det):
+            replay(chk, cc, keys, rng, "ordering lemma chain: %s" % det[0])
+        elif not good_ord:
+            chk.inconclusive("%s ordering" % name, "; ".join(det)[:200])
     # (4) attribute spellings
     a = res["attr"]
     good = all(Sym.of(x).same(y) for x, y in zip(numpy.asarray(a["c11"], dtype=object).ravel(), C["c11"].ravel()))
@@ -189,6 +202,92 @@ def run_keyset(chk, cc, name, keys, tier, rng):
                         vs_squared=(Sym.of(numpy.asarray(res["vs"], dtype=object)[1, 1]) ** 2).short(3)))
         w = Z.witness([(">", Sym.of(numpy.asarray(res["KV"], dtype=object)[1, 1]))], name="C07:witness", rng=rng)
         chk.witness("KV>0 reachable", w[0])
+
+
+def ordering_general(chk, name, Cm, Sm, got):
+    """Reuss <= Hill <= Voigt for a GENERAL symmetric stiffness (all supplied components symbolic), by a chain of solver-checked lemmas.
+
+    For a symmetric second-rank tensor d with stress-like Voigt vector sg, strain-like vector ep (ep.sg = d:d = nn) put y = S sg,
+    a = ep.C.ep (= d:C:d), b = sg.S.sg (= d:S:d) and w = nn*y - b*ep.  Positive definiteness of C is used ONLY through the instances
+    w.C.w >= 0 and b = y.C.y > 0.
+      L1 (z3, polynomial identity in all C and S entries, no hypothesis):  w.C.w - b*(a*b - nn^2) == sum_i m_i * sum_j E_ij sg_j
+          with E = C S - 1 and m_i = nn^2 y_i - 2 nn b ep_i;  hence  S C = 1  ==>  w.C.w = b (a b - nn^2).
+      L2 (z3/nlsat, 3 variables):  Q = B (A B - nn^2), Q >= 0, B > 0  ==>  A B >= nn^2        [Cauchy-Schwarz for the pair C, C^-1]
+      L3 (z3):  code K_V * 9 == a(identity tensor), code K_R * b(identity tensor) == 1, 10 * code G_V == sum_k a_k/n_k,
+                code G_R * sum_k b_k/n_k == 5/2 over an orthogonal basis d_k of the five deviatoric tensors
+      L4 (z3/nlsat, 10 variables):  a_k b_k >= 1, a_k, b_k > 0 (k = 1..5)  ==>  (sum a_k)(sum b_k) >= 25
+      L5 (z3):  R <= V  ==>  R <= (R+V)/2 <= V
+    Together: K_R <= K_VRH <= K_V and G_R <= G_VRH <= G_V wherever C is positive definite and S C = 1."""
+    import z3
+    t0 = time.time()
+    F = Fraction
+    dirs = [("identity", [[1, 0, 0], [0, 1, 0], [0, 0, 1]]),
+            ("dev:11-22", [[1, 0, 0], [0, -1, 0], [0, 0, 0]]),
+            ("dev:11+22-2*33", [[1, 0, 0], [0, 1, 0], [0, 0, -2]]),
+            ("dev:23", [[0, 0, 0], [0, 0, 1], [0, 1, 0]]),
+            ("dev:13", [[0, 0, 1], [0, 0, 0], [1, 0, 0]]),
+            ("dev:12", [[0, 1, 0], [1, 0, 0], [0, 0, 0]])]
+    pairs = [(0, 0), (1, 1), (2, 2), (1, 2), (0, 2), (0, 1)]
+    E = [[sum((Cm[i][k] * Sm[k][j] for k in range(6)), Sym({})) - (1 if i == j else 0) for j in range(6)] for i in range(6)]
+    ab = {}
+    ok = True
+    detail = []
+    for label, d in dirs:
+        sg = [F(d[p][q]) for p, q in pairs]
+        ep = [F(d[p][q]) * (1 if p == q else 2) for p, q in pairs]
+        nn = sum(F(d[p][q]) ** 2 for p in range(3) for q in range(3))
+        assert nn == sum(x * y for x, y in zip(sg, ep))
+        y = [sum((Sm[i][j] * sg[j] for j in range(6)), Sym({})) for i in range(6)]
+        a = sum((Cm[i][j] * (ep[i] * ep[j]) for i in range(6) for j in range(6)), Sym({}))
+        b = sum((y[i] * sg[i] for i in range(6)), Sym({}))
+        w = [y[i] * nn - b * ep[i] for i in range(6)]
+        q = sum((w[i] * Cm[i][j] * w[j] for i in range(6) for j in range(6)), Sym({}))
+        m = [y[i] * (nn * nn) - b * (2 * nn * ep[i]) for i in range(6)]
+        cert = sum((m[i] * sum((E[i][j] * sg[j] for j in range(6)), Sym({})) for i in range(6)), Sym({}))
+        v1, _ = Z.prove_equal(q - b * (a * b - nn * nn), cert, name="%s:ordering:L1[%s]" % (name, label), timeout_ms=60000, use_assumptions=False)
+        # L2 with this direction's nn
+        Q, A, B = z3.Reals("Q A B")
+        nnv = z3.RealVal(str(nn))
+        v2, _ = Z.check([Q == B * (A * B - nnv * nnv), Q >= 0, B > 0, A * B < nnv * nnv], name="%s:ordering:L2[%s]" % (name, label), timeout_ms=20000)
+        if v1 != "unsat" or v2 != "unsat":
+            ok = False
+            detail.append("%s: L1=%s L2=%s" % (label, v1, v2))
+        ab[label] = (a, b, nn)
+    # L3: link to what the code returned
+    a0, b0, n0 = ab["identity"]
+    links = [("K_V*9 == a", Sym.of(got["KV"]) * 9, a0), ("K_R*b == 1", Sym.of(got["KR"]) * b0, Sym.of(1))]
+    sa = sum((ab[l][0] / ab[l][2] for l, _ in dirs[1:]), Sym({}))
+    sb = sum((ab[l][1] / ab[l][2] for l, _ in dirs[1:]), Sym({}))
+    links += [("10*G_V == sum a_k/n_k", Sym.of(got["GV"]) * 10, sa), ("G_R * sum b_k/n_k == 5/2", Sym.of(got["GR"]) * sb, Sym.of(F(5, 2)))]
+    for lab, lhs, rhs in links:
+        v3, _ = Z.prove_equal(lhs, rhs, name="%s:ordering:L3[%s]" % (name, lab), timeout_ms=30000, use_assumptions=False)
+        if v3 != "unsat":
+            ok = False
+            detail.append("L3 %s: %s" % (lab, v3))
+    # L4
+    aa = [z3.Real("a%d" % k) for k in range(5)]
+    bb = [z3.Real("b%d" % k) for k in range(5)]
+    cons = [z3.Sum(aa) * z3.Sum(bb) < 25]
+    for x, yv in zip(aa, bb):
+        cons += [x > 0, yv > 0, x * yv >= 1]
+    v4, _ = Z.check(cons, name="%s:ordering:L4" % name, timeout_ms=120000)
+    # L5
+    R, V = z3.Reals("R V")
+    v5, _ = Z.check([R <= V, z3.Or(R > (R + V) / 2, (R + V) / 2 > V)], name="%s:ordering:L5" % name, timeout_ms=5000)
+    # the conclusion itself, from the lemma statements (abstract reals): K
+    KV, KR, A_, B_ = z3.Reals("KV KR A_ B_")
+    v6, _ = Z.check([KV * 9 == A_, KR * B_ == 1, B_ > 0, A_ * B_ >= 9, KR > KV], name="%s:ordering:K-conclusion" % name, timeout_ms=20000)
+    GV, GR, SA, SB = z3.Reals("GV GR SA SB")
+    v7, _ = Z.check([GV * 10 == SA, GR * SB == z3.RealVal("5/2"), SB > 0, SA * SB >= 25, GR > GV], name="%s:ordering:G-conclusion" % name, timeout_ms=20000)
+    for lab, v in (("L4", v4), ("L5", v5), ("K-conclusion", v6), ("G-conclusion", v7)):
+        if v != "unsat":
+            ok = False
+            detail.append("%s: %s" % (lab, v))
+    chk.obligation("%s: Reuss <= Hill <= Voigt (K and G) for the general symmetric stiffness with S C = 1, positive definiteness used at 12 "
+                   "instance vectors [lemma chain: 6 polynomial identities in all C,S entries, Cauchy-Schwarz and 5-term sum lemmas by nlsat]" % name,
+                   "unsat" if ok else ("unknown" if all("sat" not in d_.replace("unsat", "") for d_ in detail) else "sat"),
+                   seconds=round(time.time() - t0, 2), kind="inequality(lemma chain)", logic="QF_NRA", detail=detail[:4])
+    return ok, detail
 
 
 _replayed = set()
@@ -336,8 +435,8 @@ def ordering(chk, cc, tier, rng):
             chk.inconclusive("ordering " + name, "%s: %s" % (type(e).__name__, e))
             continue
         pairs = (("KR", "KH"), ("KH", "KV"), ("GR", "GH"), ("GH", "GV"))
-        if tier == "quick" and len(syms) > 3:
-            pairs = pairs[:2]     # the shear pair of the 5-parameter class does not finish within the quick budget
+        if len(syms) > 3:
+            pairs = pairs[:2]     # the direct nlsat query for the shear pair of the 5-parameter class does not finish (covered by the lemma chain)
         for lo, hi in pairs:
             t0 = time.time()
             v, envm = Z.prove_rel(">=", Sym.of(r[hi]) - Sym.of(r[lo]), name="ordering:%s:%s<=%s" % (name, lo, hi), timeout_ms=40000)
@@ -359,7 +458,7 @@ def main():
         tier = sys.argv[1]
     chk = Check("C07", tier, "symbolic execution of Calculator._calculate_compliances and the CijVolumeBaseInterface properties on symbolic "
                              "stiffness fields (numpy.linalg.inv as an uninterpreted symmetric inverse); z3 identities against 3^4 tensor "
-                             "contractions; nlsat for the Reuss<=Hill<=Voigt ordering on explicit-inverse subclasses")
+                             "contractions; Reuss<=Hill<=Voigt for the general tensor by a solver-checked lemma chain (polynomial certificates + nlsat)")
     import cij.core.calculator as cc
     chk.encode(cc.Calculator._calculate_compliances, cc.CijVolumeBaseInterface)
     Z.reset_log()
@@ -372,14 +471,19 @@ def main():
     from cij.util import units
     f_code = units.Quantity(1.0, units.rydberg).to(units.kg * units.km ** 2 / units.s ** 2).magnitude
     chk.side_check("Ry -> kg km^2/s^2 factor vs CODATA", abs(f_code / ryk - 1) < 1e-8, dict(code=f_code, codata=ryk))
-    chk.bound(grid="nT=2 x nV=2", keysets=names, ordering="cubic (3 parameters), transversely isotropic (5 parameters)")
+    chk.bound(grid="nT=2 x nV=2", keysets=names, ordering="general tensor of each key set by the lemma chain (one grid point); direct nlsat "
+              "cross-check for cubic (3 parameters, K and G) and transversely isotropic (5 parameters, K)")
     chk.stub("numpy.linalg.inv -> uninterpreted symmetric inverse symbols (congruent in the matrix); numpy.allclose(compliance, 0) -> "
              "structural (generic inverse has no vanishing entry)")
     chk.assume("cell mass, volumes > 0; unit factors Ry->kg km^2/s^2 and N_A read as symbols when within 1e-8 of CODATA")
-    chk.out_of_claim("Reuss<=Hill<=Voigt for general positive-definite tensors (nlsat unknown); conditioning of the LAPACK inverse")
+    chk.assume("ordering: positive definiteness of C enters only through 12 instances (w.C.w >= 0 and y.C.y > 0 for the six directions of the "
+               "lemma chain); the reported compliance is the exact inverse (S C = 1)")
+    chk.out_of_claim("conditioning / rounding of the LAPACK inverse; the ordering as a single monolithic nlsat query (unknown at 120 s), which is "
+                     "why it is decided as a chain of lemmas whose composition (modus ponens over the lemma statements) is done by the harness")
     return chk.finish("The matrix handed to inv is shown to be the symmetric Voigt matrix of the tensor and the reported compliances its "
                       "inverse's entries; K/G Voigt, Reuss, Hill and the velocity relations are z3 identities in all stiffness, inverse, "
-                      "mass and volume symbols; the ordering is an nlsat verdict for two explicit-inverse subclasses.")
+                      "mass and volume symbols; Reuss <= Hill <= Voigt is decided for the general tensor by a chain of z3-checked polynomial identities and "
+                      "nlsat lemmas (Cauchy-Schwarz for C and C^-1), cross-checked by direct nlsat verdicts on two explicit-inverse subclasses.")
 
 
 if __name__ == "__main__":
